@@ -48,6 +48,9 @@ PolyVerdict(e) ==
   ELSE IF ~REq(DenV(e.rcls, e.res), Expected(e, da, db)) THEN "result_denotes_another_function"
   ELSE IF e.res_bool # ~RIsZero(DenV(e.rcls, e.res)) THEN "truthiness_is_not_an_exact_zero_test"
   ELSE IF e.res_eq0 # RIsZero(DenV(e.rcls, e.res)) THEN "comparison_with_0_is_not_an_exact_zero_test"
+  \* e.zdiff = result - (the same function as a canonically stored polynomial): the zero function
+  ELSE IF ~RIsZero(Den(e.zdiff.rep)) THEN "MACHINERY_difference_with_canonical_form_is_not_zero"
+  ELSE IF e.zdiff.bool \/ ~e.zdiff.eq0 THEN "zero_test_fails_on_difference_of_equal_functions"
   ELSE IF e.a_eq_b /\ ~e.bnum /\ ~REq(da, db) THEN "eq_equates_different_functions"
   ELSE IF e.a_after # e.a \/ (~e.bnum /\ e.b_after # e.b) THEN "operand_was_modified"
   ELSE IF e.hassym /\ ~REq(DenV(e.rcls, e.res), <<PFromSeq(e.sym.n), PFromSeq(e.sym.d)>>) THEN "tosympy_denotes_another_function"
